@@ -70,7 +70,8 @@ register(
     level="fault_enumeration",
     rule=(
         "one run = one generated scenario (estimator class from the registry with peers in every estimator slot, "
-        "configuration, data, history template over F=failing fit, O=successful fit, P=predict/transform, S=score); "
+        "configuration, data, history template over F=failing fit, O=successful fit, P=predict/transform, S=score, "
+        "Q=predict/transform with an inner estimator failing: every predict-time site is failed once too); "
         "a dry run lists the N fault sites (task index, peer class, method, ordinal) reached by fit and EVERY single "
         "site is failed once (quick; pairs of sites in consecutive fits in thorough), or every applicable "
         "invalid-data kind is tried; after every operation parameters and caller arrays are compared, and the last "
